@@ -18,7 +18,8 @@ PROP = "C20"
 RULE = ("cases: arrays with variables whose ids are str / unicode / empty / int-like strings, duplicate-free, bounds boolean and integer; "
         "construct with partial dictionaries, unknown ids, callable defaults and dtypes int/int32/int64/float/float32; from_list with flat "
         "and one-level nested lists incl. unknown ids; to_list on 1-D and 2-D; A/b/to_linalg on polyhedra with index. non-trivial: the "
-        "dictionary/list names some but not all columns (construct/from_list), both kinds of variables exist (indices); distinct by digest")
+        "dictionary/list names some but not all columns (construct/from_list), both kinds of variables exist (indices); distinct by digest"
+        ' Also: twin arrays with equal ids whose bounds have the same sum but differ in (0,1)-ness.')
 BUDGET = {"quick": (12, 1000, 90), "thorough": (16, 8000, 1200)}
 PYTEST = True     # thorough tier also runs the repository's own tests under these monitors
 MANDATORY = ["judged:construct", "judged:construct:callable-default", "judged:construct:float-nan-default", "judged:construct:int-lower-default",
